@@ -3,6 +3,8 @@ package checks
 
 import (
 	"fmt"
+	"os"
+	"path/filepath"
 	"regexp"
 	"strings"
 
@@ -135,3 +137,45 @@ func shortenMid(s string) string {
 	}
 	return s[:250] + " … " + s[len(s)-250:]
 }
+
+// aux: jsmon aux exec <root file> [repetitions] — runs a project from disk and prints what was observed (for triage).
+func auxExec(args []string) int {
+	if len(args) < 1 {
+		return 2
+	}
+	n := 1
+	if len(args) > 1 {
+		fmt.Sscan(args[1], &n)
+	}
+	seen := map[string]int{}
+	var order []string
+	files := map[string][]byte{}
+	dir := filepath.Dir(args[0])
+	_ = filepath.Walk(dir, func(p string, info os.FileInfo, err error) error {
+		if err == nil && !info.IsDir() {
+			if b, e := os.ReadFile(p); e == nil {
+				rel, _ := filepath.Rel(dir, p)
+				files[rel] = b
+			}
+		}
+		return nil
+	})
+	for i := 0; i < n; i++ {
+		d := run.Doc{Files: files, Root: filepath.Base(args[0])}
+		o := run.Exec(d, false)
+		s := describe(o)
+		if o.Outcome == run.Accepted && n == 1 {
+			s += "\n" + string(o.JSON)
+		}
+		if seen[s] == 0 {
+			order = append(order, s)
+		}
+		seen[s]++
+	}
+	for _, s := range order {
+		fmt.Printf("%dx %s\n", seen[s], s)
+	}
+	return 0
+}
+
+func init() { fw.RegisterAux("exec", auxExec) }
